@@ -207,6 +207,32 @@ func c21MemExec(p *harness.Plan) *harness.Outcome {
 				if held == nil || !target.Alive {
 					return
 				}
+				// the scenario needs the first operation recorded on every node, the target included (if it sat
+				// on the held-back chain the target does not know it, and a second operation built from the
+				// target's view would reference a stale predecessor: no honest network certifies that)
+				want := ""
+				for _, n := range r.c.Nodes[:r.c.Cfg.Nodes] {
+					if !n.Alive {
+						continue
+					}
+					last, err := n.Store.ReadLastConsensusSnapshot()
+					if err != nil || last == nil {
+						continue
+					}
+					h := last.PayloadHash().String()
+					if want == "" {
+						want = h
+					}
+					if h != want {
+						target.PollOnly = nil
+						m.quietChain = nil
+						mon.mode, mon.interleave = 0, 0
+						held = nil
+						r.out.Probes["late_old_scenario_abandoned"]++
+						r.c.Run(r.c.Q.Now + 3*time.Second)
+						return
+					}
+				}
 				// the target learns it (again) now; its loop for that chain still gets no turn
 				m.inj.deliver(r.c.External(), target, held.tx, held.snap, time.Millisecond)
 				r.c.Run(r.c.Q.Now + time.Second)
